@@ -5,7 +5,7 @@ from src.compilers.base import BaseCompiler
 
 class KotlinCompiler(BaseCompiler):
     ERROR_REGEX = re.compile(
-        r'([a-zA-Z0-9\/_]+.kt):\d+:\d+:[ ]+error:[ ]+(.*)')
+        r'([^\s:]+.kt):\d+:\d+:[ ]+error:[ ]+(.*)')
     CRASH_REGEX = re.compile(
         r'(org\.jetbrains\..*)\n(.*)',
         re.MULTILINE
